@@ -66,17 +66,19 @@ func identOfIAT(b *ach.IATBatch) []string {
 	return []string{bh.OriginatorIdentification, bh.StandardEntryClassCode, bh.CompanyEntryDescription, bh.ODFIIdentification, ci}
 }
 
-// maskLine blanks what SegmentFile is free to renumber and the property does
-// not mention: the trace number of an entry / 02 / 98 / 99 record (last 15
-// columns), the entry detail sequence number of 05 and 10..18 addenda (last 7
-// columns, derived from the trace number), and the 4 digit sequence number
-// that Batch.build assigns to ADV entries by position.
+// maskLine blanks, for ADV entries only, the 4 digit sequence number that Batch.build assigns by position.
 func maskLine(kind, line string) string {
 	rs := []rune(line)
 	if len(rs) != 94 {
 		return line // never expected; compared verbatim
 	}
 	cut := 0
+	if kind != "ADV" {
+		// standard and IAT entries keep their trace numbers (and the sequence numbers derived from them) through
+		// SegmentFile on every input the generator produces: compared verbatim, as the property's "multiset of
+		// entries (with their addenda)" reads
+		return line
+	}
 	switch {
 	case rs[0] == '6' && kind == "ADV":
 		cut = 4
@@ -455,11 +457,48 @@ func run(t *T) {
 				continue
 			}
 		}
+		if r.Chance(1, 5) {
+			nineDigitODFI(f)
+		}
 		if err := f.Validate(); err != nil {
 			t.Fail("C11/generator", "input file is not valid", FileInput(f), err.Error(), "a valid file")
 			continue
 		}
 		checkFile(t, f, mode)
+	}
+}
+
+// nineDigitODFI writes the ODFI of every batch header and control with its check digit (nine characters), as a file
+// built through the API or JSON may carry it; rendering and validation use the first eight.  Kept only if the file
+// still validates.
+func nineDigitODFI(f *ach.File) {
+	type saved struct{ h, c *string }
+	var all []saved
+	for _, b := range f.Batches {
+		if h, c := b.GetHeader(), b.GetControl(); h != nil && c != nil && b.GetHeader().StandardEntryClassCode != ach.ADV {
+			all = append(all, saved{&h.ODFIIdentification, &c.ODFIIdentification})
+		}
+	}
+	for _, b := range f.IATBatches {
+		if h, c := b.GetHeader(), b.GetControl(); h != nil && c != nil {
+			all = append(all, saved{&h.ODFIIdentification, &c.ODFIIdentification})
+		}
+	}
+	old := make([][2]string, len(all))
+	for i, x := range all {
+		old[i] = [2]string{*x.h, *x.c}
+		if len(*x.h) == 8 && *x.h == *x.c {
+			d := ach.CalculateCheckDigit(*x.h)
+			if d >= 0 && d <= 9 {
+				*x.h += fmt.Sprint(d)
+				*x.c = *x.h
+			}
+		}
+	}
+	if f.Validate() != nil {
+		for i, x := range all {
+			*x.h, *x.c = old[i][0], old[i][1]
+		}
 	}
 }
 
